@@ -165,9 +165,10 @@ template <class Q, class E> struct Runner {
             long fb0 = 0; (void)fb0;
             bool ok = false, threw = false, aborted = false; long ret = 0; bool intact = true;
             try {
-                if (c == 'P') { g_armed = false; E e(v); g_armed = true; q.push(e); ok = true; }
+                // the value selects the overload: push(const T&) / push(T&&); try_push(const T&) / try_push(T&&) / try_emplace(args)
+                if (c == 'P') { g_armed = false; E e(v); g_armed = true; if (v & 1) q.push(std::move(e)); else q.push(e); ok = true; }
                 else if (c == 'E') { q.emplace(v); ok = true; }
-                else if (c == 'Y') { if constexpr (is_bounded_q<Q>::value) { g_armed = false; E e(v); g_armed = true; ok = q.try_push(e); } }
+                else if (c == 'Y') { if constexpr (is_bounded_q<Q>::value) { if (v % 3 == 2) ok = q.try_emplace(v); else { g_armed = false; E e(v); g_armed = true; ok = (v % 3 == 1) ? q.try_push(std::move(e)) : q.try_push(e); } } }
                 else if (c == 'O') { if constexpr (is_bounded_q<Q>::value) { E e; q.pop(e); ok = true; ret = e.v; intact = e.intact(); } }
                 else if (c == 'Q') { E e; ok = q.try_pop(e); if (ok) { ret = e.v; intact = e.intact(); } }
                 else if (c == 'A') {
